@@ -89,15 +89,87 @@ fn case(input: &Input, ctx: &mut Ctx) -> CaseResult {
     Ok(())
 }
 
+
+/// Long chains of operations on one identifier: however the value is represented inside, after any number of steps it
+/// must still be where stepping around the cycle puts it. nums = [start, kind]: kind 0 = `+= 65535` (a full lap)
+/// 70,000 times, 1 = `-= 65535` 70,000 times, 2 = 300,000 pseudo-random `+=` / `-=` / `+` / `-` steps, 3 = `+= 1`
+/// 140,000 times (twice round), 4 = alternating `+= 65535`, `-= 1`.
+fn chain(input: &Input, ctx: &mut Ctx) -> CaseResult {
+    let n = input.nums();
+    let start = (n[0] as u16).max(1);
+    let kind = n.get(1).copied().unwrap_or(0);
+    let mut pid = match Pid::try_from(start) {
+        Ok(p) => p,
+        Err(e) => viol!("Pid::try_from({}) failed: {:?}", start, e),
+    };
+    let mut model = start;
+    let steps: u64 = match kind {
+        2 => 300_000,
+        3 => 140_000,
+        _ => 70_000,
+    };
+    let mut x = 0x2545_F491_4F6C_DD1Du64 ^ (start as u64) << 17;
+    for i in 0..steps {
+        let (add, amount): (bool, u16) = match kind {
+            0 => (true, 65_535),
+            1 => (false, 65_535),
+            3 => (true, 1),
+            4 => (i % 2 == 0, if i % 2 == 0 { 65_535 } else { 1 }),
+            _ => {
+                x ^= x << 13;
+                x ^= x >> 7;
+                x ^= x << 17;
+                ((x >> 40) & 1 == 0, if (x >> 41) & 3 == 0 { 65_535 - ((x >> 20) & 3) as u16 } else { (x >> 16) as u16 })
+            }
+        };
+        if add {
+            model = model_add(model, amount);
+            if i % 3 == 0 {
+                pid = pid + amount;
+            } else {
+                pid += amount;
+            }
+        } else {
+            model = model_sub(model, amount);
+            if i % 3 == 0 {
+                pid = pid - amount;
+            } else {
+                pid -= amount;
+            }
+        }
+        if pid.value() != model || pid.value() == 0 {
+            viol!("after {} steps of a chain starting at Pid({}) (last step {} {}) the identifier is {} but stepping around the cycle gives {}", i + 1, start, if add { "+" } else { "-" }, amount, pid.value(), model);
+        }
+    }
+    // the identifier reached through the chain is the same value as one constructed directly
+    match Pid::try_from(model) {
+        Ok(direct) => ensure!(direct == pid && pid == direct && direct.value() == pid.value(), "Pid({}) reached through a chain of {} steps is not equal to Pid::try_from({})", pid.value(), steps, model),
+        Err(e) => viol!("Pid::try_from({}) failed: {:?}", model, e),
+    }
+    ctx.more_evals(steps);
+    ctx.count_distinct(steps);
+    ctx.label("chains");
+    if start == 1 {
+        ctx.sample(|| format!("chain kind {} from Pid(1): {} steps, ends at {}", kind, steps, pid.value()));
+    }
+    Ok(())
+}
+
+pub const SUB_CHAIN: Sub = Sub { name: "c19.chains", f: chain };
+
 pub const SUB: Sub = Sub { name: "c19.pairs", f: case };
 
 pub fn subs() -> Vec<Sub> {
-    vec![SUB]
+    vec![SUB, SUB_CHAIN]
 }
 
 pub fn run(env: &mut Env) -> RunResult {
     // index 0 is the zero-construction case, 1..=65535 the identifiers
     env.run_enum(SUB, 65_536, true, |i| Input::Nums(vec![i]))?;
+    let chains: Vec<Input> = [1u64, 2, 255, 256, 32_768, 65_534, 65_535].iter().flat_map(|s| (0..5u64).map(move |k| Input::Nums(vec![*s, k]))).collect();
+    let nc = chains.len() as u64;
+    env.run_enum(SUB_CHAIN, nc, false, move |i| chains[i as usize].clone())?;
+    env.require("c19.chains", "chains");
     env.require("c19.pairs", "zero-rejected");
     env.require("c19.pairs", "pairs-crossing-the-wrap");
     Ok(())
